@@ -34,8 +34,8 @@ def to_model(shape):
     return segs
 
 
-def build(shape, seed=0):
-    return tm.encode(to_model(shape), tm.Planter(seed))
+def build(shape, seed=0, allow_forbidden=False):
+    return tm.encode(to_model(shape), tm.Planter(seed), allow_forbidden=allow_forbidden)
 
 
 # ----------------------------------------------------------------------------- canonical values
